@@ -942,6 +942,7 @@ pub fn run(task: &str) -> Option<EvalResult> {
         "tree_hash_ground" => Some(crate::t_tree_hash::tree_hash_ground()),
         "curry_ground" => Some(crate::t_tree_hash::curry_ground()),
         "dedup_ground" => Some(crate::dedup::dedup_ground()),
+        "alloc_ground" => Some(crate::alloc_watch::alloc_ground()),
         "roundtrip_ground" => Some(crate::roundtrip::roundtrip_ground(false)),
         "roundtrip_ground:thorough" => Some(crate::roundtrip::roundtrip_ground(true)),
         "pos_v2_hash" => Some(pos_v2_hash()),
